@@ -1,6 +1,7 @@
 #!/bin/bash
-# Sensitivity self-test: apply every kept seeded change to /repo in turn, run the quick check(s) named in its meta.json,
-# require exit 1 with a VIOLATION line, revert.  Writes /verif/evidence/sensitivity.json.  Exit 0 iff all are detected.
+# Sensitivity self-test: apply every kept seeded change in turn to a scratch worktree of /repo's HEAD (VERIF_REPO points the
+# build at it; /repo itself stays untouched, so this can run beside other checks), run the quick check(s) named in its
+# meta.json, require exit 1 with a VIOLATION line.  Writes /verif/evidence/sensitivity.json.  Exit 0 iff all are detected.
 cd /verif
 BUD=${1:-30}
 python3 - "$BUD" <<'PY'
@@ -13,22 +14,24 @@ for d in sorted(os.listdir('/verif/seeded')):
     m=json.load(open(mp))
     props=re.findall(r'C\d\d',m['detected_by'])
     props=list(dict.fromkeys(props))[:2] or [m['breaks_property']]
-    if subprocess.run(['git','-C','/repo','status','--short'],capture_output=True,text=True).stdout.strip():
-        print('repo not clean'); sys.exit(2)
-    if subprocess.run(['git','-C','/repo','apply','/verif/seeded/%s/patch.diff'%d]).returncode!=0:
-        res.append({'id':d,'detected':False,'note':'patch does not apply'}); ok=False; continue
+    W='/tmp/senswt-%d'%os.getpid()
+    subprocess.run(['git','-C','/repo','worktree','remove','--force',W],capture_output=True)
+    if subprocess.run(['git','-C','/repo','worktree','add','-q','--detach',W,'HEAD']).returncode!=0:
+        print('cannot create worktree'); sys.exit(2)
     det=None; t0=time.time()
     try:
+        if subprocess.run(['git','-C',W,'apply','/verif/seeded/%s/patch.diff'%d]).returncode!=0:
+            res.append({'id':d,'detected':False,'note':'patch does not apply'}); ok=False; continue
         for p in props:
-            env=dict(os.environ,VERIF_BUDGET_S=bud,VERIF_EVIDENCE_DIR='/dev/shm/mut-evidence',VERIF_REPLAY_DIR='/dev/shm/mut-replays')
+            env=dict(os.environ,VERIF_BUDGET_S=bud,VERIF_REPO=W,VERIF_EVIDENCE_DIR='/dev/shm/mut-evidence',VERIF_REPLAY_DIR='/dev/shm/mut-replays')
             r=subprocess.run(['./check',p,'quick'],capture_output=True,text=True,env=env)
             if r.returncode==1 and 'VIOLATION property=' in r.stdout:
                 det=p; break
     finally:
-        subprocess.run(['git','-C','/repo','checkout','--','.'])
+        subprocess.run(['git','-C','/repo','worktree','remove','--force',W],capture_output=True)
     res.append({'id':d,'breaks':m['breaks_property'],'checks_tried':props,'detected_by':det,'detected':det is not None,'wall_s':round(time.time()-t0,1)})
     print(d,'->',det); sys.stdout.flush()
     if det is None: ok=False
-json.dump({'budget_s_per_check':int(bud),'seeded_changes':len(res),'detected':sum(1 for r in res if r['detected']),'results':res},open('/verif/evidence/sensitivity.json','w'),indent=1)
+json.dump({'tree':subprocess.run(['git','-C','/repo','log','--format=%h','-1'],capture_output=True,text=True).stdout.strip(),'budget_s_per_check':int(bud),'seeded_changes':len(res),'detected':sum(1 for r in res if r['detected']),'results':res},open('/verif/evidence/sensitivity.json','w'),indent=1)
 sys.exit(0 if ok else 1)
 PY
